@@ -37,13 +37,7 @@ impl circuitbreaker::StateChangeListener for Listener {
     }
 }
 
-pub fn clear_all_rules() {
-    flow::clear_rules();
-    isolation::clear_rules();
-    sentinel_core::system::clear_rules();
-    sentinel_core::hotspot::clear_rules();
-    sentinel_core::circuitbreaker::clear_rules();
-}
+pub use crate::common::clear_all_rules;
 
 impl Exec {
     pub fn new(case_no: u64) -> Self {
